@@ -247,6 +247,9 @@ def run(ctx):
                     ctx.count("dep-order:compared-steps", len(keys))
                 elif label == "sandbox-flip":
                     skip = tainted_by_sandbox(base) | tainted_by_sandbox(rr)
+                    # steps without script are not executed; the dump has no argument list for them, so whether their
+                    # (derived) id is tainted by a fingerprinted argument cannot be decided: not compared here
+                    skip |= {(p_, k_) for p_, k_, s_ in steps_of(base) if not s_["valid"]}
                     keys = [k for k in base_ids if k in ids and k not in skip]
                     diff = [k for k in keys if base_ids[k][0] != ids[k][0]]
                     ctx.count("sandbox-flip:compared-steps", len(keys))
